@@ -521,8 +521,8 @@ Proof.
   5: { cbn [sem_domains apply_option].
        destruct (apply_domains_names h st ds inc exc Hi He) as [A B]. apply IH; assumption. }
   all: cbn [sem_domains];
-    match goal with |- context [apply_option h st ?o] =>
-      destruct (apply_option_same_doms h st o ltac:(intros; discriminate)) as (E1 & E2 & _ & _)
+    match goal with |- context [apply_option ?hh ?ss ?o] =>
+      destruct (apply_option_same_doms hh ss o ltac:(intros; discriminate)) as (E1 & E2 & _ & _)
     end; apply IH; [rewrite E1|rewrite E2]; assumption.
 Qed.
 
@@ -580,3 +580,401 @@ Proof.
   - destruct exc; [|reflexivity]. rewrite negb_true_iff.
     destruct (existsb _ l) eqn:F; [|reflexivity]. exfalso. apply B, E. exact F.
 Qed.
+
+(* ========================================================================================== *)
+(* 8. tables: generated (from the source) vs documentation (L0)                                *)
+(* ========================================================================================== *)
+Lemma str_eqb_sym a b : str_eqb a b = str_eqb b a.
+Proof.
+  destruct (str_eqb a b) eqn:E.
+  - apply str_eqb_eq in E. subst. symmetry. apply str_eqb_refl.
+  - destruct (str_eqb b a) eqn:F; [|reflexivity]. apply str_eqb_eq in F. subst.
+    rewrite str_eqb_refl in E. discriminate.
+Qed.
+
+Lemma assoc_str_none {A} k (l : list (string * A)) :
+  mem_str k (map (fun e => bs (fst e)) l) = false -> assoc_str k l = None.
+Proof.
+  induction l as [|[s v] l IH]; cbn; [reflexivity|]. intros H.
+  apply orb_false_iff in H as [H1 H2]. rewrite str_eqb_sym, H1. apply IH. exact H2.
+Qed.
+
+Definition cpt_keys : list str :=
+  map (fun e => bs (fst e)) cpt_table ++ map (fun e => bs (fst e)) l0_cpt_table.
+
+Lemma mem_str_app x a b : mem_str x (a ++ b) = mem_str x a || mem_str x b.
+Proof. induction a as [|y a IH]; cbn; [reflexivity|]. rewrite IH. apply orb_assoc. Qed.
+
+Lemma cpt_keys_checked :
+  forallb (fun k => request_type_beq (cpt_match_type k) (l0_cpt k)) cpt_keys = true.
+Proof. vm_compute. reflexivity. Qed.
+
+(* the crate's request-type names agree with the webRequest documentation table, for every string *)
+Theorem cpt_table_agrees raw : cpt_match_type raw = l0_cpt raw.
+Proof.
+  destruct (mem_str raw cpt_keys) eqn:E.
+  - apply mem_str_In in E. apply request_type_beq_eq.
+    exact (proj1 (forallb_forall _ _) cpt_keys_checked raw E).
+  - unfold cpt_keys in E. rewrite mem_str_app in E. apply orb_false_iff in E as [E1 E2].
+    unfold cpt_match_type, l0_cpt. rewrite (assoc_str_none raw cpt_table E1), (assoc_str_none raw l0_cpt_table E2).
+    reflexivity.
+Qed.
+
+(* request type -> class -> bit agrees with From<&RequestType> for NetworkFilterMask *)
+Theorem request_class_agrees t :
+  mask_of_request_type t =
+  match l0_class_of_request t with Some c => class_mask c | None => M_UNMATCHED end.
+Proof. destruct t; reflexivity. Qed.
+
+(* --- option names --- *)
+Definition opt_keys : list str :=
+  map (fun e => bs (fst (fst e))) option_table
+  ++ flat_map (fun e => map bs (fst (fst e))) l0_option_table.
+
+Lemma lookup_option_in_none t name neg :
+  mem_str name (map (fun e => bs (fst (fst e))) t) = false -> lookup_option_in t name neg = None.
+Proof.
+  induction t as [|[[n g] o] t IH]; cbn; [reflexivity|]. intros H.
+  apply orb_false_iff in H as [H1 H2]. rewrite str_eqb_sym, H1. cbn. apply IH. exact H2.
+Qed.
+
+Lemma l0_lookup_in_invalid t name neg :
+  mem_str name (flat_map (fun e => map bs (fst (fst e))) t) = false -> l0_lookup_in t name neg = A_invalid.
+Proof.
+  induction t as [|[[ns p] g] t IH]; cbn; [reflexivity|]. intros H.
+  rewrite mem_str_app in H. apply orb_false_iff in H as [H1 H2].
+  assert (E : existsb (fun n => str_eqb (bs n) name) ns = false).
+  { clear - H1. induction ns as [|n ns IHn]; cbn in *; [reflexivity|].
+    apply orb_false_iff in H1 as [A B]. rewrite str_eqb_sym, A. cbn. apply IHn. exact B. }
+  rewrite E. apply IH. exact H2.
+Qed.
+
+Lemma opt_keys_checked :
+  forallb (fun k => forallb (fun g => l0_atom_beq (atom_of_outcome (lookup_option k g)) (l0_lookup k g))
+                            [false; true]) opt_keys = true.
+Proof. vm_compute. reflexivity. Qed.
+
+Lemma l0_atom_beq_eq a b : l0_atom_beq a b = true <-> a = b.
+Proof. split; [apply internal_l0_atom_dec_bl|apply internal_l0_atom_dec_lb]. Qed.
+
+(* every option name (and every string that is no option name), negated or not, means in
+   parse_filter_options what the documentation table says *)
+Theorem option_table_agrees name neg : atom_of_outcome (lookup_option name neg) = l0_lookup name neg.
+Proof.
+  destruct (mem_str name opt_keys) eqn:E.
+  - apply mem_str_In in E.
+    pose proof (proj1 (forallb_forall _ _) opt_keys_checked name E) as H. cbn [forallb] in H.
+    rewrite andb_true_r in H. apply andb_true_iff in H as [H1 H2].
+    destruct neg; apply l0_atom_beq_eq; assumption.
+  - unfold opt_keys in E. rewrite mem_str_app in E. apply orb_false_iff in E as [E1 E2].
+    unfold lookup_option, l0_lookup.
+    rewrite (lookup_option_in_none option_table name neg E1), (l0_lookup_in_invalid _ name neg E2).
+    reflexivity.
+Qed.
+
+(* payloads: what the parser builds has the payload kind of its constructor *)
+Definition wf_optb (o : nfopt) : bool :=
+  match o, ctor_payload (opt_ctor o) with
+  | NUnit _, PK_unit | NBool _ _, PK_bool | NValue _ _, PK_value
+  | NOptValue _ _, PK_optvalue | NDomains _ _, PK_domains => true
+  | _, _ => false
+  end.
+
+Definition outcome_wf (o : opt_outcome) : bool :=
+  match o with
+  | OO_Err _ => true
+  | OO_Unit c => match ctor_payload c with PK_unit => true | _ => false end
+  | OO_Bool c _ => match ctor_payload c with PK_bool => true | _ => false end
+  | OO_Value c => match ctor_payload c with PK_value | PK_optvalue | PK_domains => true | _ => false end
+  end.
+
+Lemma option_table_wf : forallb (fun e => outcome_wf (snd e)) option_table = true.
+Proof. vm_compute. reflexivity. Qed.
+
+Lemma lookup_option_wf name neg : outcome_wf (lookup_option name neg) = true.
+Proof.
+  unfold lookup_option.
+  assert (G : forall t, forallb (fun e => outcome_wf (snd e)) t = true ->
+              match lookup_option_in t name neg with Some o => outcome_wf o = true | None => True end).
+  { induction t as [|[[n g] o] t IH]; cbn; [auto|]. intros H. apply andb_true_iff in H as [H1 H2].
+    destruct (str_eqb (bs n) name && Bool.eqb g neg); [exact H1|apply IH; exact H2]. }
+  specialize (G option_table option_table_wf).
+  destruct (lookup_option_in option_table name neg); [exact G|reflexivity].
+Qed.
+
+Lemma parse_one_option_wf raw o : parse_one_option raw = POk o -> wf_optb o = true.
+Proof.
+  unfold parse_one_option. cbv zeta.
+  destruct (splitn2 EQSIGN (strip_all TILDE raw)) as [name value].
+  set (neg := match raw with x :: _ => N.eqb x TILDE | [] => false end).
+  pose proof (lookup_option_wf name neg) as W.
+  destruct (lookup_option name neg) as [e|c|c b|c]; cbn in W.
+  - discriminate.
+  - intros H. inversion H; subst. unfold wf_optb. cbn [opt_ctor]. destruct (ctor_payload c); try discriminate; reflexivity.
+  - intros H. inversion H; subst. unfold wf_optb. cbn [opt_ctor]. destruct (ctor_payload c); try discriminate; reflexivity.
+  - destruct (ctor_payload c) eqn:P; try discriminate.
+    + destruct c; try discriminate P;
+        repeat match goal with |- context [if ?x then _ else _] => destruct x end;
+        intros H; inversion H; subst; reflexivity.
+    + intros H. inversion H; subst. unfold wf_optb. cbn [opt_ctor]. rewrite P. reflexivity.
+    + destruct (is_nil (parse_domain_value value)); [discriminate|].
+      intros H. inversion H; subst. unfold wf_optb. cbn [opt_ctor]. rewrite P. reflexivity.
+Qed.
+
+Lemma parse_option_list_wf raws : forall opts,
+  parse_option_list raws = POk opts -> forallb wf_optb opts = true.
+Proof.
+  induction raws as [|r raws IH]; cbn; intros opts H.
+  - inversion H; subst. reflexivity.
+  - destruct (parse_one_option r) as [o|e] eqn:E; [|discriminate].
+    destruct (parse_option_list raws) as [os|e]; [|discriminate].
+    inversion H; subst. cbn. rewrite (parse_one_option_wf r o E), (IH os eq_refl). reflexivity.
+Qed.
+
+Theorem parse_filter_options_wf raw opts :
+  parse_filter_options raw = POk opts -> forallb wf_optb opts = true.
+Proof. apply parse_option_list_wf. Qed.
+
+(* a negated `document` never comes out of the parser *)
+Lemma wf_no_negated_document o : wf_optb o = true -> atom_of_nfopt o <> A_type T_document false.
+Proof.
+  destruct o as [c|c b|c v|c v|c ds]; destruct c; try destruct b; cbn; intros H; try discriminate H;
+    intros E; discriminate E.
+Qed.
+
+(* ========================================================================================== *)
+(* 9. mask construction: bits of a parsed rule                                                *)
+(* ========================================================================================== *)
+Definition cpos (c : tclass) : N :=
+  match c with
+  | T_image => 0 | T_media => 1 | T_object => 2 | T_other => 3 | T_ping => 4 | T_script => 5
+  | T_stylesheet => 6 | T_subdocument => 7 | T_websocket => 8 | T_xhr => 9 | T_font => 10
+  | T_document => 29
+  end.
+Lemma class_mask_pow c : class_mask c = 2 ^ cpos c.
+Proof. destruct c; reflexivity. Qed.
+
+Lemma tclass_beq_eq a b : tclass_beq a b = true <-> a = b.
+Proof. split; [apply internal_tclass_dec_bl|apply internal_tclass_dec_lb]. Qed.
+
+Lemma cpos_eqb a b : N.eqb (cpos a) (cpos b) = tclass_beq a b.
+Proof. destruct a, b; reflexivity. Qed.
+
+Lemma class_mask_bit c c' : N.testbit (class_mask c) (cpos c') = tclass_beq c c'.
+Proof. rewrite class_mask_pow, N.pow2_bits_eqb. apply cpos_eqb. Qed.
+
+Lemma has_flag_bit m k : has_flag m (2 ^ k) = N.testbit m k.
+Proof.
+  unfold has_flag. destruct (N.testbit m k) eqn:E.
+  - apply N.eqb_eq. apply N.bits_inj. intro n. rewrite N.land_spec, N.pow2_bits_eqb.
+    destruct (N.eqb k n) eqn:F; [|apply andb_false_r].
+    apply N.eqb_eq in F. subst n. rewrite E. reflexivity.
+  - apply N.eqb_neq. intros H.
+    assert (G : N.testbit (N.land m (2 ^ k)) k = N.testbit (2 ^ k) k) by (rewrite H; reflexivity).
+    rewrite N.land_spec, N.pow2_bits_eqb, N.eqb_refl, E in G. discriminate.
+Qed.
+
+(* closed testbit terms are evaluated *)
+Ltac tb_const :=
+  repeat match goal with
+  | |- context [N.testbit ?a ?k] =>
+      let v := eval vm_compute in (N.testbit a k) in
+      match v with
+      | true => change (N.testbit a k) with true
+      | false => change (N.testbit a k) with false
+      end
+  end.
+
+(* --- the option loop, seen through the meaning of the options --- *)
+Record mpn := mkMpn { mm : N; mp : N; mn : N }.
+Definition proj (st : pstate) : mpn := mkMpn (st_mask st) (st_pos st) (st_neg st).
+
+Definition atom_sets (a : l0_atom) : N :=
+  match a with
+  | A_badfilter => M_BAD_FILTER | A_important => M_IS_IMPORTANT | A_matchcase => M_MATCH_CASE
+  | A_generichide => M_GENERIC_HIDE | A_redirect => N.lor M_IS_REDIRECT M_ALSO_BLOCK_REDIRECT
+  | A_redirect_rule => M_IS_REDIRECT | A_removeparam => M_IS_REMOVEPARAM
+  | A_csp => N.lor M_IS_CSP M_FROM_DOCUMENT
+  | _ => 0
+  end.
+Definition atom_clears (a : l0_atom) : N :=
+  match a with
+  | A_party true => M_FIRST_PARTY | A_party false => M_THIRD_PARTY | _ => 0
+  end.
+Definition atom_pos (a : l0_atom) : N := match a with A_type c true => class_mask c | _ => 0 end.
+Definition atom_neg (a : l0_atom) : N := match a with A_type c false => class_mask c | _ => 0 end.
+
+Definition apply_atom (s : mpn) (a : l0_atom) : mpn :=
+  mkMpn (N.ldiff (N.lor (mm s) (atom_sets a)) (atom_clears a))
+        (N.lor (mp s) (atom_pos a)) (N.lor (mn s) (atom_neg a)).
+
+Lemma apply_domains_proj h st ds : proj (apply_domains h st ds) = proj st.
+Proof.
+  unfold apply_domains. cbv zeta.
+  destruct (is_nil (map _ (filter (fun e => fst e) _))), (is_nil (map _ (filter (fun e => negb (fst e)) _))); reflexivity.
+Qed.
+
+Lemma mpn_eq a b : mm a = mm b -> mp a = mp b -> mn a = mn b -> a = b.
+Proof. destruct a, b; cbn; intros; subst; reflexivity. Qed.
+
+Lemma ldiff_0_r a : N.ldiff a 0 = a.
+Proof. apply N.bits_inj. intro n. rewrite N.ldiff_spec, N.bits_0. apply andb_true_r. Qed.
+
+Lemma apply_option_atom h st o : wf_optb o = true ->
+  proj (apply_option h st o) = apply_atom (proj st) (atom_of_nfopt o).
+Proof.
+  intros W. destruct o as [c|c b|c v|c v|c ds].
+  5: { destruct c; try discriminate W. cbn [apply_option]. rewrite apply_domains_proj.
+       apply mpn_eq; cbn; rewrite ?N.lor_0_r, ?ldiff_0_r; reflexivity. }
+  all: destruct c; try discriminate W; try destruct b;
+    apply mpn_eq; cbn -[N.lor N.ldiff]; unfold set_flag;
+    rewrite ?N.lor_0_r, ?ldiff_0_r, ?N.lor_assoc; reflexivity.
+Qed.
+
+Lemma fold_option_atom h opts : forall st, forallb wf_optb opts = true ->
+  proj (fold_left (apply_option h) opts st) = fold_left apply_atom (map atom_of_nfopt opts) (proj st).
+Proof.
+  induction opts as [|o opts IH]; intros st W; cbn [fold_left map]; [reflexivity|].
+  cbn in W. apply andb_true_iff in W as [W1 W2].
+  rewrite (IH _ W2), (apply_option_atom h st o W1). reflexivity.
+Qed.
+
+(* --- bits after the loop --- *)
+Fixpoint pos_of (l : list l0_atom) : N :=
+  match l with [] => 0 | a :: r => N.lor (atom_pos a) (pos_of r) end.
+Fixpoint neg_of (l : list l0_atom) : N :=
+  match l with [] => 0 | a :: r => N.lor (atom_neg a) (neg_of r) end.
+
+Lemma fold_atoms_pos l : forall s, mp (fold_left apply_atom l s) = N.lor (mp s) (pos_of l).
+Proof.
+  induction l as [|a l IH]; intros s; cbn [fold_left pos_of]; [symmetry; apply N.lor_0_r|].
+  rewrite IH. cbn [apply_atom mp]. symmetry; apply N.lor_assoc.
+Qed.
+Lemma fold_atoms_neg l : forall s, mn (fold_left apply_atom l s) = N.lor (mn s) (neg_of l).
+Proof.
+  induction l as [|a l IH]; intros s; cbn [fold_left neg_of]; [symmetry; apply N.lor_0_r|].
+  rewrite IH. cbn [apply_atom mn]. symmetry; apply N.lor_assoc.
+Qed.
+
+Lemma fold_atoms_mask_set l k : (forall a, N.testbit (atom_clears a) k = false) ->
+  forall s, N.testbit (mm (fold_left apply_atom l s)) k
+            = N.testbit (mm s) k || existsb (fun a => N.testbit (atom_sets a) k) l.
+Proof.
+  intros Hk. induction l as [|a l IH]; intros s; cbn [fold_left existsb]; [symmetry; apply orb_false_r|].
+  rewrite IH. cbn [apply_atom mm]. rewrite N.ldiff_spec, N.lor_spec, Hk. cbn [negb].
+  rewrite andb_true_r. symmetry. apply orb_assoc.
+Qed.
+Lemma fold_atoms_mask_clear l k : (forall a, N.testbit (atom_sets a) k = false) ->
+  forall s, N.testbit (mm (fold_left apply_atom l s)) k
+            = N.testbit (mm s) k && negb (existsb (fun a => N.testbit (atom_clears a) k) l).
+Proof.
+  intros Hk. induction l as [|a l IH]; intros s; cbn [fold_left existsb]; [symmetry; apply andb_true_r|].
+  rewrite IH. cbn [apply_atom mm]. rewrite N.ldiff_spec, N.lor_spec, Hk, orb_false_r.
+  rewrite negb_orb. symmetry. apply andb_assoc.
+Qed.
+
+Lemma has_atom_cons a b l : has_atom a (b :: l) = l0_atom_beq a b || has_atom a l.
+Proof. reflexivity. Qed.
+
+Lemma pos_of_bit l c : N.testbit (pos_of l) (cpos c) = has_atom (A_type c true) l.
+Proof.
+  induction l as [|a l IH]; [reflexivity|]. cbn [pos_of]. rewrite N.lor_spec, IH, has_atom_cons. f_equal.
+  destruct a as [c' b| | | | | | | | | | | | ]; cbn [atom_pos]; try (rewrite N.bits_0; reflexivity).
+  destruct b; [rewrite class_mask_bit|rewrite N.bits_0]; destruct c, c'; reflexivity.
+Qed.
+Lemma neg_of_bit l c : N.testbit (neg_of l) (cpos c) = has_atom (A_type c false) l.
+Proof.
+  induction l as [|a l IH]; [reflexivity|]. cbn [neg_of]. rewrite N.lor_spec, IH, has_atom_cons. f_equal.
+  destruct a as [c' b| | | | | | | | | | | | ]; cbn [atom_neg]; try (rewrite N.bits_0; reflexivity).
+  destruct b; [rewrite N.bits_0|rewrite class_mask_bit]; destruct c, c'; reflexivity.
+Qed.
+
+(* the positive / negative type masks only contain type bits *)
+Lemma land_lor_sub a b m : N.land a m = a -> N.land b m = b -> N.land (N.lor a b) m = N.lor a b.
+Proof. intros Ha Hb. rewrite N.land_lor_distr_l, Ha, Hb. reflexivity. Qed.
+Lemma pos_of_sub l : N.land (pos_of l) M_FROM_ALL_TYPES = pos_of l.
+Proof.
+  induction l as [|a l IH]; [reflexivity|]. cbn [pos_of]. apply land_lor_sub; [|exact IH].
+  destruct a as [c b| | | | | | | | | | | | ]; cbn [atom_pos]; try reflexivity. destruct b; [destruct c|]; reflexivity.
+Qed.
+Lemma neg_of_sub l : N.land (neg_of l) M_FROM_ALL_TYPES = neg_of l.
+Proof.
+  induction l as [|a l IH]; [reflexivity|]. cbn [neg_of]. apply land_lor_sub; [|exact IH].
+  destruct a as [c b| | | | | | | | | | | | ]; cbn [atom_neg]; try reflexivity. destruct b; [|destruct c]; reflexivity.
+Qed.
+
+Definition is_pos_type (a : l0_atom) : bool := match a with A_type _ true => true | _ => false end.
+Definition is_neg_type (a : l0_atom) : bool := match a with A_type _ false => true | _ => false end.
+
+Lemma class_mask_nonzero c : class_mask c <> 0.
+Proof. destruct c; discriminate. Qed.
+
+Lemma pos_of_zero l : N.eqb (pos_of l) 0 = negb (existsb is_pos_type l).
+Proof.
+  induction l as [|a l IH]; [reflexivity|]. cbn [pos_of existsb]. rewrite negb_orb, <- IH.
+  destruct (N.eqb (N.lor (atom_pos a) (pos_of l)) 0) eqn:E.
+  - apply N.eqb_eq, N.lor_eq_0_iff in E as [E1 E2]. rewrite E2.
+    destruct a as [c b| | | | | | | | | | | | ]; try reflexivity. destruct b; [|reflexivity].
+    cbn in E1. exfalso. exact (class_mask_nonzero c E1).
+  - apply N.eqb_neq in E. destruct (N.eqb (pos_of l) 0) eqn:F; [|symmetry; apply andb_false_r].
+    apply N.eqb_eq in F. rewrite F, N.lor_0_r in E.
+    destruct a as [c b| | | | | | | | | | | | ]; try (exfalso; apply E; reflexivity).
+    destruct b; [reflexivity|exfalso; apply E; reflexivity].
+Qed.
+Lemma neg_of_zero l : N.eqb (neg_of l) 0 = negb (existsb is_neg_type l).
+Proof.
+  induction l as [|a l IH]; [reflexivity|]. cbn [neg_of existsb]. rewrite negb_orb, <- IH.
+  destruct (N.eqb (N.lor (atom_neg a) (neg_of l)) 0) eqn:E.
+  - apply N.eqb_eq, N.lor_eq_0_iff in E as [E1 E2]. rewrite E2.
+    destruct a as [c b| | | | | | | | | | | | ]; try reflexivity. destruct b; [reflexivity|].
+    cbn in E1. exfalso. exact (class_mask_nonzero c E1).
+  - apply N.eqb_neq in E. destruct (N.eqb (neg_of l) 0) eqn:F; [|symmetry; apply andb_false_r].
+    apply N.eqb_eq in F. rewrite F, N.lor_0_r in E.
+    destruct a as [c b| | | | | | | | | | | | ]; try (exfalso; apply E; reflexivity).
+    destruct b; [exfalso; apply E; reflexivity|reflexivity].
+Qed.
+
+Lemma any_positive_type_alt l : any_positive_type l = existsb is_pos_type l.
+Proof.
+  unfold any_positive_type.
+  destruct (existsb is_pos_type l) eqn:E.
+  - apply existsb_exists in E as (a & Ha & Hp). destruct a as [c b| | | | | | | | | | | | ]; try discriminate.
+    destruct b; [|discriminate]. apply existsb_exists. exists c. split; [destruct c; cbn; tauto|].
+    apply existsb_exists. exists (A_type c true). split; [exact Ha|]. apply l0_atom_beq_eq. reflexivity.
+  - destruct (existsb _ all_tclasses) eqn:F; [|reflexivity].
+    apply existsb_exists in F as (c & _ & Hc). apply existsb_exists in Hc as (a & Ha & Hb).
+    apply l0_atom_beq_eq in Hb. subst a.
+    assert (existsb is_pos_type l = true) by (apply existsb_exists; exists (A_type c true); auto).
+    congruence.
+Qed.
+Lemma any_negated_type_alt l : any_negated_type l = existsb is_neg_type l.
+Proof.
+  unfold any_negated_type.
+  destruct (existsb is_neg_type l) eqn:E.
+  - apply existsb_exists in E as (a & Ha & Hp). destruct a as [c b| | | | | | | | | | | | ]; try discriminate.
+    destruct b; [discriminate|]. apply existsb_exists. exists c. split; [destruct c; cbn; tauto|].
+    apply existsb_exists. exists (A_type c false). split; [exact Ha|]. apply l0_atom_beq_eq. reflexivity.
+  - destruct (existsb _ all_tclasses) eqn:F; [|reflexivity].
+    apply existsb_exists in F as (c & _ & Hc). apply existsb_exists in Hc as (a & Ha & Hb).
+    apply l0_atom_beq_eq in Hb. subst a.
+    assert (existsb is_neg_type l = true) by (apply existsb_exists; exists (A_type c false); auto).
+    congruence.
+Qed.
+
+Lemma disjoint_pos_all l : disjoint (pos_of l) M_FROM_ALL_TYPES = negb (any_positive_type l).
+Proof. unfold disjoint. rewrite pos_of_sub, pos_of_zero, any_positive_type_alt. reflexivity. Qed.
+Lemma disjoint_neg_all l : disjoint (neg_of l) M_FROM_ALL_TYPES = negb (any_negated_type l).
+Proof. unfold disjoint. rewrite neg_of_sub, neg_of_zero, any_negated_type_alt. reflexivity. Qed.
+
+(* without a negated `document`, the negative mask only has network-type bits *)
+Lemma neg_of_sub_net l : has_atom (A_type T_document false) l = false ->
+  N.land (neg_of l) M_FROM_NETWORK_TYPES = neg_of l.
+Proof.
+  induction l as [|a l IH]; [reflexivity|]. rewrite has_atom_cons. intros H.
+  apply orb_false_iff in H as [H1 H2]. cbn [neg_of]. apply land_lor_sub; [|apply IH; exact H2].
+  destruct a as [c b| | | | | | | | | | | | ]; cbn [atom_neg]; try reflexivity.
+  destruct b; [reflexivity|]. destruct c; try reflexivity. discriminate H1.
+Qed.
+Lemma disjoint_neg_net l : has_atom (A_type T_document false) l = false ->
+  disjoint (neg_of l) M_FROM_NETWORK_TYPES = negb (any_negated_type l).
+Proof. intros H. unfold disjoint. rewrite (neg_of_sub_net l H), neg_of_zero, any_negated_type_alt. reflexivity. Qed.
